@@ -2,10 +2,10 @@
 # usage: all.sh quick|thorough [IDs...]   — runs the registered checks one after another and prints a summary
 TIER="${1:-quick}"; shift
 IDS="$@"
-[ -z "$IDS" ] && IDS=$(python3 -c "import json;print(' '.join(json.load(open('/verif/run/props.json')).keys()))")
+[ -z "$IDS" ] && IDS=$(python3 -c "import json;print(' '.join(json.load(open('$(dirname $(readlink -f $0))/props.json')).keys()))")
 for id in $IDS; do
   s=$(date +%s)
-  /verif/run/check.sh $id $TIER > /tmp/verif_all_$id.log 2>&1
+  $(dirname $(readlink -f $0))/check.sh $id $TIER > /tmp/verif_all_$id.log 2>&1
   rc=$?
   echo "$id rc=$rc $(( $(date +%s) - s ))s $(grep -c '^VIOLATION' /tmp/verif_all_$id.log) violations; $(tail -1 /tmp/verif_all_$id.log)"
 done
